@@ -772,6 +772,15 @@ func parsePrimitiveStrictWithChecks[T any, R any](
 		return zero, err
 	}
 
+	// A non-nil pointer whose pointee passed the checks unchanged comes back as the same
+	// pointer, exactly as Parse returns it; only an overwrite check yields a new pointer.
+	if rt != nil && rt.Kind() == reflect.Pointer && internals.Transform == nil {
+		if rv := reflect.ValueOf(input); !rv.IsNil() && rv.Elem().CanInterface() &&
+			reflect.DeepEqual(rv.Elem().Interface(), any(validated)) {
+			return input, nil
+		}
+	}
+
 	// Convert validated T back to R.
 	result := convertValidatedToResult[T, R](validated)
 
